@@ -87,8 +87,16 @@ ChgDef ==
 (* historical read: view at heads H must be the interpretation of the ancestors' ops *)
 ReadAt ==
   /\ IsEv("readat")
-  /\ ViewChk("C07", "view-at-heads-equals-interpretation-of-ancestors",
-             OpsOf(ops, Anc(deps, S(E.heads))), E.view)
+  /\ LET H == S(E.heads)
+         A == Anc(deps, H)
+         O == OpsOf(ops, A)
+     IN  /\ ViewChk("C07", "view-at-heads-equals-interpretation-of-ancestors", O, E.view)
+         /\ Chk("C07", "fork-at-succeeds", "err" \notin DOMAIN E.fork)
+         /\ ("err" \notin DOMAIN E.fork) =>
+               /\ Chk("C07", "fork-at-heads-are-the-given-heads", S(E.fork.heads) = H)
+               /\ Chk("C07", "fork-at-holds-exactly-the-ancestors", S(E.fork.applied) = A)
+               /\ ViewChk("C07", "fork-at-document-equals-interpretation-of-ancestors", O, E.fork.view)
+               /\ Chk("C07", "read-at-equals-read-of-fork", E.fork.view = E.view)
   /\ UNCHANGED <<ops, deps, enc>>
 
 Other ==
